@@ -517,11 +517,65 @@ fn catalogue(tc: &mut Tc<'_>) -> u64 {
 		label: String::new(),
 	};
 	let cx = &mut cx;
-	// ---- tuples containing mutexes: arities 1..7
+	shape_00(cx);
+	shape_01(cx);
+	shape_02(cx);
+	shape_03(cx);
+	shape_04(cx);
+	shape_05(cx);
+	shape_06(cx);
+	shape_07(cx);
+	shape_08(cx);
+	shape_09(cx);
+	shape_10(cx);
+	shape_11(cx);
+	shape_12(cx);
+	shape_13(cx);
+	shape_14(cx);
+	shape_15(cx);
+	shape_16(cx);
+	shape_17(cx);
+	shape_18(cx);
+	shape_19(cx);
+	shape_20(cx);
+	shape_21(cx);
+	shape_22(cx);
+	shape_23(cx);
+	shape_24(cx);
+	shape_25(cx);
+	shape_26(cx);
+	shape_27(cx);
+	shape_28(cx);
+	shape_29(cx);
+	shape_30(cx);
+	shape_31(cx);
+	shape_32(cx);
+	shape_33(cx);
+	cx.cases
+}
+
+#[inline(never)]
+fn shape_00(cx: &mut Cx<'_, '_>) {
 	owned_shapes_w!(cx, "(M,)", |ids| (leaf!(cx, ids, M),));
+}
+
+#[inline(never)]
+fn shape_01(cx: &mut Cx<'_, '_>) {
 	owned_shapes_w!(cx, "(M,R)", |ids| (leaf!(cx, ids, M), leaf!(cx, ids, R)));
+}
+
+#[inline(never)]
+fn shape_02(cx: &mut Cx<'_, '_>) {
 	owned_shapes_w!(cx, "(R,M,PM)", |ids| (leaf!(cx, ids, R), leaf!(cx, ids, M), leaf!(cx, ids, PM)));
+}
+
+#[inline(never)]
+fn shape_03(cx: &mut Cx<'_, '_>) {
 	owned_shapes_w!(cx, "(M,M,R,R)", |ids| (leaf!(cx, ids, M), leaf!(cx, ids, M), leaf!(cx, ids, R), leaf!(cx, ids, R)));
+}
+
+#[inline(never)]
+fn shape_04(cx: &mut Cx<'_, '_>) {
 	owned_shapes_w!(cx, "(PR,M,R,M,PM)", |ids| (
 		leaf!(cx, ids, PR),
 		leaf!(cx, ids, M),
@@ -529,6 +583,10 @@ fn catalogue(tc: &mut Tc<'_>) -> u64 {
 		leaf!(cx, ids, M),
 		leaf!(cx, ids, PM)
 	));
+}
+
+#[inline(never)]
+fn shape_05(cx: &mut Cx<'_, '_>) {
 	owned_shapes_w!(cx, "(M,R,PM,M,R,PM)", |ids| (
 		leaf!(cx, ids, M),
 		leaf!(cx, ids, R),
@@ -537,6 +595,10 @@ fn catalogue(tc: &mut Tc<'_>) -> u64 {
 		leaf!(cx, ids, R),
 		leaf!(cx, ids, PM)
 	));
+}
+
+#[inline(never)]
+fn shape_06(cx: &mut Cx<'_, '_>) {
 	owned_shapes_w!(cx, "(R,M,R,M,R,M,R)", |ids| (
 		leaf!(cx, ids, R),
 		leaf!(cx, ids, M),
@@ -546,11 +608,30 @@ fn catalogue(tc: &mut Tc<'_>) -> u64 {
 		leaf!(cx, ids, M),
 		leaf!(cx, ids, R)
 	));
-	// ---- all-Sharable tuples: arities 1..7, read and write
+}
+
+#[inline(never)]
+fn shape_07(cx: &mut Cx<'_, '_>) {
 	owned_shapes_rw!(cx, "(R,)", |ids| (leaf!(cx, ids, R),));
+}
+
+#[inline(never)]
+fn shape_08(cx: &mut Cx<'_, '_>) {
 	owned_shapes_rw!(cx, "(R,PR)", |ids| (leaf!(cx, ids, R), leaf!(cx, ids, PR)));
+}
+
+#[inline(never)]
+fn shape_09(cx: &mut Cx<'_, '_>) {
 	owned_shapes_rw!(cx, "(R,R,R)", |ids| (leaf!(cx, ids, R), leaf!(cx, ids, R), leaf!(cx, ids, R)));
+}
+
+#[inline(never)]
+fn shape_10(cx: &mut Cx<'_, '_>) {
 	owned_shapes_rw!(cx, "(PR,R,R,PR)", |ids| (leaf!(cx, ids, PR), leaf!(cx, ids, R), leaf!(cx, ids, R), leaf!(cx, ids, PR)));
+}
+
+#[inline(never)]
+fn shape_11(cx: &mut Cx<'_, '_>) {
 	owned_shapes_rw!(cx, "(R,R,R,R,R)", |ids| (
 		leaf!(cx, ids, R),
 		leaf!(cx, ids, R),
@@ -558,6 +639,10 @@ fn catalogue(tc: &mut Tc<'_>) -> u64 {
 		leaf!(cx, ids, R),
 		leaf!(cx, ids, R)
 	));
+}
+
+#[inline(never)]
+fn shape_12(cx: &mut Cx<'_, '_>) {
 	owned_shapes_rw!(cx, "(R,PR,R,PR,R,PR)", |ids| (
 		leaf!(cx, ids, R),
 		leaf!(cx, ids, PR),
@@ -566,6 +651,10 @@ fn catalogue(tc: &mut Tc<'_>) -> u64 {
 		leaf!(cx, ids, R),
 		leaf!(cx, ids, PR)
 	));
+}
+
+#[inline(never)]
+fn shape_13(cx: &mut Cx<'_, '_>) {
 	owned_shapes_rw!(cx, "(R,R,R,R,R,R,R)", |ids| (
 		leaf!(cx, ids, R),
 		leaf!(cx, ids, R),
@@ -575,51 +664,124 @@ fn catalogue(tc: &mut Tc<'_>) -> u64 {
 		leaf!(cx, ids, R),
 		leaf!(cx, ids, R)
 	));
-	// ---- arrays and boxed slices
+}
+
+#[inline(never)]
+fn shape_14(cx: &mut Cx<'_, '_>) {
 	owned_shapes_w!(cx, "[M;0]", |ids| {
 		let a: [M; 0] = [];
 		let _ = &mut ids;
 		a
 	});
+}
+
+#[inline(never)]
+fn shape_15(cx: &mut Cx<'_, '_>) {
 	owned_shapes_w!(cx, "[M;1]", |ids| [leaf!(cx, ids, M)]);
+}
+
+#[inline(never)]
+fn shape_16(cx: &mut Cx<'_, '_>) {
 	owned_shapes_w!(cx, "[M;2]", |ids| [leaf!(cx, ids, M), leaf!(cx, ids, M)]);
+}
+
+#[inline(never)]
+fn shape_17(cx: &mut Cx<'_, '_>) {
 	owned_shapes_w!(cx, "[M;3]", |ids| [leaf!(cx, ids, M), leaf!(cx, ids, M), leaf!(cx, ids, M)]);
+}
+
+#[inline(never)]
+fn shape_18(cx: &mut Cx<'_, '_>) {
 	owned_shapes_w!(cx, "[PM;4]", |ids| [leaf!(cx, ids, PM), leaf!(cx, ids, PM), leaf!(cx, ids, PM), leaf!(cx, ids, PM)]);
+}
+
+#[inline(never)]
+fn shape_19(cx: &mut Cx<'_, '_>) {
 	owned_shapes_rw!(cx, "[R;0]", |ids| {
 		let a: [R; 0] = [];
 		let _ = &mut ids;
 		a
 	});
+}
+
+#[inline(never)]
+fn shape_20(cx: &mut Cx<'_, '_>) {
 	owned_shapes_rw!(cx, "[R;1]", |ids| [leaf!(cx, ids, R)]);
+}
+
+#[inline(never)]
+fn shape_21(cx: &mut Cx<'_, '_>) {
 	owned_shapes_rw!(cx, "[R;2]", |ids| [leaf!(cx, ids, R), leaf!(cx, ids, R)]);
+}
+
+#[inline(never)]
+fn shape_22(cx: &mut Cx<'_, '_>) {
 	owned_shapes_rw!(cx, "[R;3]", |ids| [leaf!(cx, ids, R), leaf!(cx, ids, R), leaf!(cx, ids, R)]);
+}
+
+#[inline(never)]
+fn shape_23(cx: &mut Cx<'_, '_>) {
 	owned_shapes_rw!(cx, "[PR;4]", |ids| [leaf!(cx, ids, PR), leaf!(cx, ids, PR), leaf!(cx, ids, PR), leaf!(cx, ids, PR)]);
+}
+
+#[inline(never)]
+fn shape_24(cx: &mut Cx<'_, '_>) {
 	owned_shapes_w!(cx, "Box<[M]>(3)", |ids| vec![leaf!(cx, ids, M), leaf!(cx, ids, M), leaf!(cx, ids, M)].into_boxed_slice());
+}
+
+#[inline(never)]
+fn shape_25(cx: &mut Cx<'_, '_>) {
 	owned_shapes_rw!(cx, "Box<[R]>(3)", |ids| vec![leaf!(cx, ids, R), leaf!(cx, ids, R), leaf!(cx, ids, R)].into_boxed_slice());
+}
+
+#[inline(never)]
+fn shape_26(cx: &mut Cx<'_, '_>) {
 	owned_shapes_rw!(cx, "Box<[R]>(0)", |ids| {
 		let _ = &mut ids;
 		Vec::<R>::new().into_boxed_slice()
 	});
+}
+
+#[inline(never)]
+fn shape_27(cx: &mut Cx<'_, '_>) {
 	owned_shapes_rw!(cx, "Vec<PR>(2)", |ids| vec![leaf!(cx, ids, PR), leaf!(cx, ids, PR)]);
-	// ---- nested static collections
+}
+
+#[inline(never)]
+fn shape_28(cx: &mut Cx<'_, '_>) {
 	owned_shapes_w!(cx, "(Owned<(M,R)>, M)", |ids| (
 		OwnedLockCollection::new((leaf!(cx, ids, M), leaf!(cx, ids, R))),
 		leaf!(cx, ids, M)
 	));
+}
+
+#[inline(never)]
+fn shape_29(cx: &mut Cx<'_, '_>) {
 	owned_shapes_rw!(cx, "(Retrying<[R;2]>, R, Owned<(R,PR)>)", |ids| (
 		RetryingLockCollection::new([leaf!(cx, ids, R), leaf!(cx, ids, R)]),
 		leaf!(cx, ids, R),
 		OwnedLockCollection::new((leaf!(cx, ids, R), leaf!(cx, ids, PR)))
 	));
+}
+
+#[inline(never)]
+fn shape_30(cx: &mut Cx<'_, '_>) {
 	owned_shapes_rw!(cx, "[Owned<[R;2]>;2]", |ids| [
 		OwnedLockCollection::new([leaf!(cx, ids, R), leaf!(cx, ids, R)]),
 		OwnedLockCollection::new([leaf!(cx, ids, R), leaf!(cx, ids, R)])
 	]);
+}
+
+#[inline(never)]
+fn shape_31(cx: &mut Cx<'_, '_>) {
 	owned_shapes_w!(cx, "Poisonable<Boxed<(M,R)>> in tuple", |ids| (
 		Poisonable::new(BoxedLockCollection::new((leaf!(cx, ids, M), leaf!(cx, ids, R)))),
 		leaf!(cx, ids, M)
 	));
-	// ---- tuples / arrays of references in both listing orders (sorted order != declared order)
+}
+
+#[inline(never)]
+fn shape_32(cx: &mut Cx<'_, '_>) {
 	{
 		let mut ids: Vec<LockId> = Vec::new();
 		let a = leaf!(cx, ids, M);
@@ -646,6 +808,10 @@ fn catalogue(tc: &mut Tc<'_>) -> u64 {
 		let c = BoxedLockCollection::try_new((&c3, &a, &d, &b)).expect("distinct");
 		exercise_w!(cx, c, mix);
 	}
+}
+
+#[inline(never)]
+fn shape_33(cx: &mut Cx<'_, '_>) {
 	{
 		let mut ids: Vec<LockId> = Vec::new();
 		let a = leaf!(cx, ids, R);
@@ -667,7 +833,6 @@ fn catalogue(tc: &mut Tc<'_>) -> u64 {
 		let c = BoxedLockCollection::try_new(vec![&b, &c3, &a].into_boxed_slice()).expect("distinct");
 		exercise!(cx, c, rot, true);
 	}
-	cx.cases
 }
 
 pub fn run(cfg: &RunCfg) -> Report {
